@@ -1232,7 +1232,7 @@ fn granularities(specs: Vec<SchedSpec>, thorough: bool) -> Vec<SchedSpec> {
         let mut fine = s.clone();
         fine.name = format!("{}/fine", s.name);
         fine.bound = if thorough { 2 } else { 1 };
-        fine.max_execs = if thorough { 40_000 } else if small { 1_200 } else if special { 3_000 } else { 300 };
+        fine.max_execs = if thorough { 40_000 } else if small { 1_200 } else if special { 2_000 } else { 200 };
         if special {
             fine.bound += 1;
         }
@@ -1245,7 +1245,7 @@ fn granularities(specs: Vec<SchedSpec>, thorough: bool) -> Vec<SchedSpec> {
         coarse.lock_points = false;
         coarse.read_points = false;
         coarse.bound = if thorough { 3 } else { 2 };
-        coarse.max_execs = if thorough { 40_000 } else { 300 };
+        coarse.max_execs = if thorough { 40_000 } else { 200 };
         out.push(coarse);
     }
     out
